@@ -218,8 +218,8 @@ theorem reachable_inv2 (h : List Bytes → UInt64) (p : Proj) (hr : Reachable h 
   induction hr with
   | parsed pa specs pa' s hm =>
     have hi := parse_inv h pa specs pa' s hm
-    obtain ⟨_, hn⟩ := parseParts_FInv specs pa newProjection pa' s newProjection_FInv hm
-    refine ⟨hi, RInv_of_AllEmpty s (parseParts_AllEmpty specs pa newProjection pa' s ?_ hm) (by rw [hn]; rfl)⟩
+    obtain ⟨_, hn⟩ := parseParts_FInv specs pa newProjection pa' s newProjection_FInv (C08.parse_ok _ _ _ _ hm)
+    refine ⟨hi, RInv_of_AllEmpty s (parseParts_AllEmpty specs pa newProjection pa' s ?_ (C08.parse_ok _ _ _ _ hm)) (by rw [hn]; rfl)⟩
     intro f hf; simp [newProjection, Proj.flat] at hf
   | parsedWithUnit pa specs pa' s hm =>
     have hi := parseWithUnit_inv h pa specs pa' s hm
@@ -227,9 +227,9 @@ theorem reachable_inv2 (h : List Bytes → UInt64) (p : Proj) (hr : Reachable h 
     unfold Parser.parseWithUnit at hm
     split at hm
     · rename_i p1 s1 heq
-      obtain ⟨_, hn⟩ := parseParts_FInv specs pa newProjection p1 s1 newProjection_FInv heq
+      obtain ⟨_, hn⟩ := parseParts_FInv specs pa newProjection p1 s1 newProjection_FInv (C08.parse_ok _ _ _ _ heq)
       have ha : AllEmpty s1 := parseParts_AllEmpty specs pa newProjection p1 s1
-        (by intro f hf; simp [newProjection, Proj.flat] at hf) heq
+        (by intro f hf; simp [newProjection, Proj.flat] at hf) (C08.parse_ok _ _ _ _ heq)
       simp only [Prod.mk.injEq, Except.ok.injEq] at hm
       obtain ⟨_, rfl⟩ := hm
       apply RInv_of_AllEmpty
